@@ -302,11 +302,13 @@ AckRcvd(sp, S, delay, ce, o) ==
            p1 == Mark(pk, sp, newly \cup late, "acked")
            p2 == MarkAll(p1, o.lost, "lost")
            p3 == IF DropsInitial(ph, sp, "ack") THEN Mark(p2, 1, OutSet(p2, 1), "disc") ELSE p2
-           ceUp == newly # {} /\ ce # NONE /\ ce > ceSeen[sp]
-           trig == LostTrig(p1, o.lost) \cup (IF ceUp THEN {pk[sp][i].t : i \in newly} ELSE {})
+           \* an increased ECN-CE count justifies a reaction when the frame acknowledges a packet for the first time (the RFC
+           \* requires a newly acknowledged packet; an acknowledgement of a packet already declared lost is tolerated too)
+           ceUp == (newly \cup late) # {} /\ ce # NONE /\ ce > ceSeen[sp]
+           trig == LostTrig(p1, o.lost) \cup (IF ceUp THEN {pk[sp][i].t : i \in newly \cup late} ELSE {})
        IN /\ pk' = p3
           /\ la' = [la EXCEPT ![sp] = Max(@, SetMax(S))]
-          /\ ceSeen' = IF ceUp THEN [ceSeen EXCEPT ![sp] = ce] ELSE ceSeen
+          /\ ceSeen' = IF newly # {} /\ ce # NONE /\ ce > ceSeen[sp] THEN [ceSeen EXCEPT ![sp] = ce] ELSE ceSeen
           /\ last' = LastRec("ack", sp, o, newly, late, AckedLost(p1, o.lost), trig, newly # {} \/ (DropsInitial(ph, sp, "ack") /\ 1 \notin ph.gone))
     /\ grant' = 0
     /\ ph' = IF DropsInitial(ph, sp, "ack") THEN [ph EXCEPT !.gone = @ \cup {1}] ELSE ph
